@@ -204,5 +204,8 @@ def import_aliases(ctx, rule):
   ctx.check(ok, rule, construct(ai), 'the selector table records the (possibly re-aliased) name every emitted selector is built from',
             'module selectors are recorded before re-aliasing', ai.loc(), instance='selector-table')
   un = ctx.func('config._uniquify_name')
-  ok = any(isinstance(n, ast.While) and u(n.test).replace(' ', '') == 'unique_nameinexisting_names' for n in walk_local(un.node))
+  g6, facts6 = std_facts(prog, un)
+  rets6 = [n for n in g6.live_nodes() if n.kind == 'return' and n.ast.value is not None]
+  taken = un.params[1] if len(un.params) > 1 else 'existing_names'
+  ok = bool(rets6) and all(('c', '%s in %s' % (u(n.ast.value), taken), False) in facts6[n.id] for n in rets6)
   ctx.check(ok, rule, construct(un), 'candidates are tried until one is not taken', '_uniquify_name no longer loops until the name is free', un.loc(), instance='loop')
